@@ -109,9 +109,9 @@ def marker_lines(text):
     toks, _ = L.lex(text.encode("utf-8"))
     out = {}
     for t in toks:
-        m = MARKER_RE.match(t.text)
-        if m:
-            out.setdefault(int(m.group(1) or m.group(2) or m.group(3)), []).append(t.line)
+        if MARKER_RE.match(t.text):
+            # keyed by the token text: a rule that turns "M5" into the field name M5 makes a different token
+            out.setdefault(t.text.decode("ascii"), []).append(t.line)
     return out
 
 
@@ -218,10 +218,13 @@ def run(ctx):
                 continue
             survivors += 1
             lines_seen.add(orig[0])
-            for ln in lines:
-                if ln - shift not in orig:
-                    bad = "marker M%d is on line %d of the input and on line %d of the output (expected shift %d)" % (
-                        m, orig[0], ln, shift)
+            # every original occurrence must still be on its line (a rule may add copies elsewhere,
+            # e.g. remove_method_call repeats the receiver as first argument)
+            here = set(ln - shift for ln in lines)
+            missing = [ln for ln in set(orig) if ln not in here]
+            if missing and len(lines) <= len(orig):
+                bad = "marker %s is on line %d of the input and on line %s of the output (expected shift %d)" % (
+                    m, missing[0], sorted(lines), shift)
         if survivors >= 3 and len(lines_seen) >= 2:
             nontriv[kind] = nontriv.get(kind, 0) + 1
         if bad:
@@ -251,13 +254,22 @@ def run(ctx):
     ctx.cov["streams"]["rejected by darklua (nothing to check)"] = {"evaluations": sum(errors.values()),
                                                                     "distinct_nontrivial": 0, "kinds": errors}
 
-    # a displaced token according to the (matching) model is a concrete failing input as well
-    for cid, d in sorted(unfit, key=lambda x: len(jobs[x[0]][2]))[:6]:
-        print("DISPLACED", d, json.dumps(jobs[cid][1]), repr(jobs[cid][2][:300]), "->", repr(res[cid]["out"][:300]))
-    for cid, d in unfit:
+    # tokens that the (matching) model shows below their recorded line although no marker moved: copies made by
+    # rules (remove_method_call repeats the receiver with its old line) or reordered names; listed in the evidence
+    observations = []
+    for cid, d in sorted(unfit, key=lambda x: len(jobs[x[0]][2])):
         kind, c, s, _ = jobs[cid]
-        if not any(p[1] is c and p[2] is s for p in problems):
-            problems.append((kind, c, s, res[cid]["out"], "a token with a recorded line is written below it (%s)" % d))
+        if any(p[1] is c and p[2] is s for p in problems):
+            continue
+        toks = displaced_tokens(s, res[cid]["trace"])
+        if classify_problem(c, s, res[cid]["out"]) is not None:
+            problems.append((kind, c, s, res[cid]["out"], "a token with a recorded line is written below it: %r (%s)" % (toks[:2], d)))
+            continue
+        if len(observations) < 4:
+            observations.append({"config": c, "source": s[:200], "displaced": toks[:3], "coq": d})
+    ctx.cov["streams"]["tokens written below their recorded line with no marker moved (not counted as violations: copies "
+                       "and reordered names; see samples)"] = {"evaluations": len(unfit), "distinct_nontrivial": 0,
+                                                               "samples": observations}
 
     reported = {}
     for kind, c, s, out, what in sorted(problems, key=lambda p: len(p[2])):
@@ -293,7 +305,7 @@ def first_bad_marker(c, s, out):
         return "lex"
     for m, lines in sorted(om.items()):
         orig = im.get(m)
-        if orig and any(ln not in orig for ln in lines):
+        if orig and len(lines) <= len(orig) and any(ln not in lines for ln in set(orig)):
             return m
     return None
 
